@@ -18,11 +18,12 @@ func init() {
 		Rules:       []string{"SEND-OWN", "STOP-ORDER", "SENDERR-NONNIL", "ALL-EXC", "NO-JOIN-ON-EARLY-EXIT", "INPUT-TO-EOF: byte input is never read through a token-limited bufio.Scanner", "EXT-NO-VALUES: nothing reachable from externalCmd.Call receives from or sends on a channel of values (the stage's value input is shared with the commands that run after it)", "GONE-COMBINED: the predicate that recognises reader-gone looks through PipelineError and Unwrap() []error combinations", "NIL-IS-A-VALUE: a value received from a channel of values is never compared with nil to decide control flow (the comma-ok form tells whether the channel is closed)"},
 		Patterns:    []string{"./pkg/eval/...", "./pkg/mods/...", "./pkg/edit/..."},
 		Run:         func(p *core.Program, r *core.Report) { runC18(p, r); runInputToEOF(p, r); runExtNoValues(p, r); runGoneThroughCombinators(p, r); runNilIsAValue(p, r) },
-		MinCounts:   map[string]int{"GONE-COMBINED": 1, "EXT-NO-VALUES": 1, "INPUT-TO-EOF": 1, "SEND-OWN": 1, "STOP-ORDER": 5, "SENDERR-NONNIL": 2, "ALL-EXC": 2, "NO-JOIN-ON-EARLY-EXIT": 2},
+		MinCounts:   map[string]int{"GONE-COMBINED": 2, "EXT-NO-VALUES": 1, "INPUT-TO-EOF": 1, "SEND-OWN": 1, "STOP-ORDER": 5, "SENDERR-NONNIL": 2, "ALL-EXC": 2, "NO-JOIN-ON-EARLY-EXIT": 2},
 		Trusted:     trustedBase,
 		Controls: []core.Control{
 			{Name: "received-nil-taken-for-closed", Rule: "NIL-IS-A-VALUE", File: "pkg/eval/frame.go", Old: "\tfor v := range inputs {\n\t\tf(v)\n\t}\n}\n\nfunc linesToChan", New: "\tfor {\n\t\tv := <-inputs\n\t\tif v == nil {\n\t\t\tbreak\n\t\t}\n\t\tf(v)\n\t}\n}\n\nfunc linesToChan", Fire: true, Want: "IterateInputs", Patterns: []string{"./pkg/eval"}},
 			{Name: "benign-comma-ok-receive-loop", Rule: "NIL-IS-A-VALUE", File: "pkg/eval/frame.go", Old: "\tfor v := range inputs {\n\t\tf(v)\n\t}\n}\n\nfunc linesToChan", New: "\tfor {\n\t\tv, ok := <-inputs\n\t\tif !ok {\n\t\t\tbreak\n\t\t}\n\t\tf(v)\n\t}\n}\n\nfunc linesToChan", Fire: false, Patterns: []string{"./pkg/eval"}},
+			{Name: "revert-fix-successful-parts-count-as-failures", Rule: "GONE-COMBINED", File: "pkg/eval/compile_effect.go", Old: "\t\t\tif exc == nil || exc.Reason() == nil {\n\t\t\t\tcontinue\n\t\t\t}\n", New: "\t\t\tif exc == nil {\n\t\t\t\tcontinue\n\t\t\t}\n", Fire: true, Want: "successful parts", Patterns: []string{"./pkg/eval"}},
 			{Name: "revert-fix-combined-reader-gone-not-recognised", Rule: "GONE-COMBINED", File: "pkg/eval/compile_effect.go", Old: "\tcase interface{ Unwrap() []error }:\n\t\tparts := err.Unwrap()\n\t\tfor _, part := range parts {\n\t\t\tif !isReaderGoneError(part) {\n\t\t\t\treturn false\n\t\t\t}\n\t\t}\n\t\treturn len(parts) > 0\n", New: "", Fire: true, Want: "combinators", Patterns: []string{"./pkg/eval"}},
 			{Name: "external-command-drains-value-input", Rule: "EXT-NO-VALUES", File: "pkg/eval/external_cmd.go", Old: "\tstate, err := proc.Wait()\n", New: "\tstopDrain := make(chan struct{})\n\tdefer close(stopDrain)\n\tif in := fm.ports[0]; in != nil && in.Chan != nil {\n\t\tgo func() {\n\t\t\tfor {\n\t\t\t\tselect {\n\t\t\t\tcase _, ok := <-in.Chan:\n\t\t\t\t\tif !ok {\n\t\t\t\t\t\treturn\n\t\t\t\t\t}\n\t\t\t\tcase <-stopDrain:\n\t\t\t\t\treturn\n\t\t\t\t}\n\t\t\t}\n\t\t}()\n\t}\n\tstate, err := proc.Wait()\n", Fire: true, Want: "externalCmd", Patterns: []string{"./pkg/eval"}},
 			{Name: "lines-through-bufio-scanner", Rule: "INPUT-TO-EOF", File: "pkg/eval/frame.go", Old: "\tfilein := bufio.NewReader(r)\n", New: "\tfilein := bufio.NewReader(r)\n\tif sc := bufio.NewScanner(r); sc.Scan() {\n\t\tch <- sc.Text()\n\t}\n", Fire: true, Want: "linesToChan", Patterns: []string{"./pkg/eval"}},
